@@ -40,6 +40,11 @@ struct DynUnl2 { u16 a<>; u8 t; GrS g; };
 struct Tail { u8 x<>; u16 y; };
 struct TailComp { u16 x<>; u8 a; u32 y<>; u8 b; };
 struct OptDynTail { u8 x<>; u64* o; u8 t; };
+struct Mac { u8 addr[6]; };
+struct Tri { u16 a; u16 b; u16 c; };
+struct OptMac { Mac* v; u8 t; };
+struct OptTri { u8 k; Tri* v; u16 t; };
+struct OptTriDyn { u8 x<>; Tri* v; Mac* w; };
 '''
 
 
@@ -115,7 +120,18 @@ class Corpus(object):
 
         class HmLimNarrowS(prophy.with_metaclass(prophy.struct_generator, prophy.struct)):
             _descriptor = [('n', prophy.i8), ('x', prophy.array(prophy.u8, bound='n', size=130)), ('b', prophy.bytes(bound='n', size=200))]
+
+        class HmElem(prophy.with_metaclass(prophy.struct_generator, prophy.struct)):
+            _descriptor = [('a', prophy.u8)]
+
+        class HmLimNarrowC(prophy.with_metaclass(prophy.struct_generator, prophy.struct)):
+            _descriptor = [('n', prophy.u8), ('es', prophy.array(HmElem, bound='n', size=300)), ('t', prophy.u16)]
+        elem = {'k': 'struct', 'name': 'HmElem', 'ms': [{'n': 'a', 't': u8, 'mk': 'plain'}]}
         made = [
+            (HmElem, elem),
+            (HmLimNarrowC, {'k': 'struct', 'name': 'HmLimNarrowC', 'ms': [
+                {'n': 'n', 't': u8, 'mk': 'plain'}, {'n': 'es', 't': elem, 'mk': 'limited', 'sizer': 'n', 'size': 300},
+                {'n': 't', 't': {'k': 'prim', 'p': 'u16'}, 'mk': 'plain'}]}),
             (HmLimShared, {'k': 'struct', 'name': 'HmLimShared', 'ms': [
                 {'n': 'n', 't': u8, 'mk': 'plain'}, {'n': 'b', 't': byte, 'mk': 'limited', 'sizer': 'n', 'size': 2},
                 {'n': 'a', 't': byte, 'mk': 'limited', 'sizer': 'n', 'size': 1}]}),
